@@ -12,6 +12,7 @@ pub fn run(rep: &Report) -> bool {
         "C04" => props::c04::run(rep),
         "C05" => props::c05::run(rep),
         "C06" => props::c06::run(rep),
+        "C07" => props::c07::run(rep),
         "C10" => props::c10::run(rep),
         "C13" => props::c13::run(rep),
         "C14" => props::c14::run(rep),
@@ -62,6 +63,7 @@ pub fn replay(rep: &Report, path: &str) -> i32 {
         "C04" => props::c04::replay(rep, &stage, &j),
         "C05" => props::c05::replay(rep, &stage, &j),
         "C06" => props::c06::replay(rep, &stage, &j),
+        "C07" => props::c07::replay(rep, &stage, &j),
         "C10" => props::c10::replay(rep, &stage, &j),
         "C13" => props::c13::replay(rep, &stage, &j),
         "C14" => props::c14::replay(rep, &stage, &j),
